@@ -10,6 +10,12 @@ pub struct Job {
 }
 
 fn job(cfg: Cfg, finish: bool, thorough: bool) -> Job {
+    // the parking_lot flavours are explored with the alternative waker shape (the two wakers of a
+    // slot share the data pointer and differ in the vtable), the local flavours with the default
+    // one (same vtable, different data pointers): see harness::waker
+    let n = cfg.system;
+    let alt = n.ends_with(".std") && !n.contains("sweep") || n.starts_with("mpmc.arrS") || n == "mpmc.fixS";
+    let cfg = if alt { cfg.with("altw", 1) } else { cfg };
     Job { cfg, max_states: if thorough { 6_000_000 } else { 1_500_000 }, wall_cap_s: if thorough { 1500.0 } else { 40.0 }, finish }
 }
 
@@ -172,6 +178,9 @@ pub fn ring_jobs(thorough: bool) -> Vec<Job> {
         v.push(job(Cfg::new("ring.fix", &[("cap", cap), ("len", len)]), true, thorough));
         v.push(job(Cfg::new("ring.grow", &[("cap", cap), ("len", len)]), true, thorough));
     }
+    // user-defined RealArray types whose size is not LEN * size_of::<T>() (alignment attribute, trailing field)
+    v.push(job(Cfg::new("ring.arrAl3", &[("cap", 3), ("len", len)]), true, thorough));
+    v.push(job(Cfg::new("ring.arrPad2", &[("cap", 2), ("len", len)]), true, thorough));
     // zero-sized elements with a Drop impl
     let zlen = if thorough { 12 } else { 10 };
     for cap in 0..=3i64 {
@@ -341,7 +350,13 @@ pub fn plan(prop: &str, tier: &str) -> Vec<Job> {
         return miri_jobs(prop);
     }
     match prop {
-        "C01" | "C17" | "C18" => all_jobs(t),
+        "C01" | "C17" => all_jobs(t),
+        "C18" => {
+            let mut v = all_jobs(t);
+            // payloads of 1 byte .. 64 KiB in FixedHeapBuf-backed channels of more than 2 MiB in total
+            v.push(job(Cfg::new("mpmc.bigpayload", &[("x", 0)]), false, t));
+            v
+        }
         "C19" => ring_jobs(t),
         "C20" => ds_jobs(t),
         "C11" => {
